@@ -1092,6 +1092,15 @@ class Process(StateMachine, persistence.Savable, metaclass=ProcessStateMachineMe
 
     # region State related methods
 
+    def transition_to(self, new_state: Optional[state_machine.State], **kwargs: Any) -> None:
+        """Transition to the new state, with this process at the top of the process stack.
+
+        All the ``on_*`` hooks of the process are called from here, and for user code in a hook
+        :meth:`Process.current` has to return this process just like it does in a step.
+        """
+        with self._process_scope():
+            super().transition_to(new_state, **kwargs)
+
     def transition_failed(
         self,
         initial_state: Hashable,
@@ -1157,8 +1166,9 @@ class Process(StateMachine, persistence.Savable, metaclass=ProcessStateMachineMe
             else:
                 msg_text = state_msg[MESSAGE_TEXT_KEY]
 
-            call_with_super_check(self.on_pausing, msg_text)
-            call_with_super_check(self.on_paused, msg_text)
+            with self._process_scope():
+                call_with_super_check(self.on_pausing, msg_text)
+                call_with_super_check(self.on_paused, msg_text)
         finally:
             self._pausing = None
 
@@ -1218,7 +1228,8 @@ class Process(StateMachine, persistence.Savable, metaclass=ProcessStateMachineMe
                 self._pausing = None
             return True
 
-        call_with_super_check(self.on_playing)
+        with self._process_scope():
+            call_with_super_check(self.on_playing)
         return True
 
     @event(from_states=process_states.Waiting)
